@@ -766,8 +766,13 @@ func c20CodeVerbatim(c *Ctx) {
 			if as, ok := nd.(*ast.AssignStmt); ok && len(as.Rhs) == 1 && strings.HasSuffix(nospace(as.Rhs[0]), ".ReadRune()") && len(as.Lhs) == 3 {
 				rv = nospace(as.Lhs[0])
 			}
-			if as, ok := nd.(*ast.AssignStmt); ok && len(as.Lhs) == 1 && nospace(as.Lhs[0]) == recvName(rd)+".cur" && rv != "" && nospace(as.Rhs[0]) == rv && len(guardsOf(rd.Body, as.Pos())) == 0 {
-				okRead = true
+			// `s.cur = r`, also as one side of a tuple assignment (`s.cur, s.cw = r, w`)
+			if as, ok := nd.(*ast.AssignStmt); ok && len(as.Lhs) == len(as.Rhs) && rv != "" && len(guardsOf(rd.Body, as.Pos())) == 0 {
+				for k := range as.Lhs {
+					if nospace(as.Lhs[k]) == recvName(rd)+".cur" && nospace(as.Rhs[k]) == rv {
+						okRead = true
+					}
+				}
 			}
 			return true
 		})
